@@ -140,7 +140,12 @@ class Built:
             bases = (Component,)
             if spec.get("base"):
                 bases = (self.classes[spec["base"]],)
-            cls = type(spec.get("pyname") or f"{prefix.capitalize()}{cname}", bases, attrs)
+            pyname = spec.get("pyname") or f"{prefix.capitalize()}{cname}"
+            if spec.get("namekind"):
+                from vf.assets import pyname as _pyname
+
+                pyname = _pyname(spec["namekind"], prefix, cname)
+            cls = type(pyname, bases, attrs)
             self.classes[cname] = cls
             registry.register(self.names[cname], cls)
         self.page_src = ser_nodes(program["page"], self.reg)
